@@ -11,7 +11,7 @@ export GOFLAGS=-mod=mod GOPROXY=off GOSUMDB=off GOTOOLCHAIN=local
 S=$(mktemp -d "${TMPDIR:-/tmp}/verif-self-XXXXXX"); trap 'rm -rf "$S"' EXIT
 mkdir -p "$S/safehtml" "$S/harness"; rsync -a --exclude .git "$REPO/" "$S/safehtml/"; cp -r "$VERIF/sim/simrt" "$S/safehtml/simrt"
 python3 "$VERIF/sim/cf_patch.py" "$S/safehtml" >/dev/null
-(cd "$S/safehtml" && "$VERIF/bin/instrument" -dir . -pkg ./template -tags verif >/dev/null)
+(cd "$S/safehtml" && "$VERIF/bin/instrument" -dir . -pkg ./template -tags verif >/dev/null && "$VERIF/bin/instrument" -dir . -pkg . -tags verif -yieldfn Tick -sitebase 20000 >/dev/null && "$VERIF/bin/instrument" -dir . -pkg ./internal/safehtmlutil -tags verif -yieldfn Tick -sitebase 30000 >/dev/null)
 echo "selftest 1: pinned suite on the instrumented copy (no simulator attached)"
 (cd "$S/safehtml" && go test -trimpath -tags verif -overlay "$VERIF/build/overlay/overlay.json" -vet=off -count=1 ./... 2>&1 | grep -v "no test files")
 cp "$VERIF"/sim/harness/*.go "$S/harness/"; sed "s#@SAFEHTML@#$S/safehtml#" "$VERIF/sim/harness/go.mod.tmpl" > "$S/harness/go.mod"; cp "$REPO/go.sum" "$S/harness/go.sum"
